@@ -279,7 +279,22 @@ class World:
             members = []
             for event in value.keys():
                 members.append((names.get(id(event), 'timeout'), repr(event.value)))
-            return ('condition', sorted(members))
+                if repr(value[event]) != repr(event.value) or event not in value:
+                    members.append(('member not served by [] / in', names.get(id(event))))
+            # the value exposes exactly the members fired by then: anything else - also an
+            # event that has fired but is no member - is not in it and not served by []
+            for name, event in sorted(list(self.events.items()) + list(self.procs.items())):
+                if any(event is member for member in value.keys()):
+                    continue
+                try:
+                    value[event]
+                except KeyError:
+                    served = False
+                else:
+                    served = True
+                if served or event in value:
+                    members.append(('non-member served', name))
+            return ('condition', sorted(members, key=repr))
         return ('value', repr(value))
 
     def build_member(self, member):
